@@ -71,3 +71,48 @@ fn position_line_col_bounded_4() {
         assert!(p.line_col() == lc(s, pos));
     }
 }
+
+
+// ---- variant: strings built from <= 3 characters of a mixed-width alphabet (valid by construction, no UTF-8 validation in the solver)
+fn sym_chars(buf: &mut [u8; 9]) -> &str {
+    let n: usize = kani::any();
+    kani::assume(n <= 3);
+    let mut len = 0usize;
+    let mut i = 0;
+    while i < n {
+        let k: u8 = kani::any();
+        kani::assume(k < 5);
+        let c = match k { 0 => 'a', 1 => '\n', 2 => '\r', 3 => 'é', _ => '€' };
+        len += c.encode_utf8(&mut buf[len..]).len();
+        i += 1;
+    }
+    // SAFETY (harness only): the buffer prefix was filled by char::encode_utf8
+    unsafe { str::from_utf8_unchecked(&buf[..len]) }
+}
+#[kani::proof]
+#[kani::unwind(11)]
+fn find_line_start_chars3() {
+    let mut buf = [0u8; 9];
+    let s = sym_chars(&mut buf);
+    let pos: usize = kani::any();
+    kani::assume(pos <= s.len() && s.is_char_boundary(pos));
+    assert!(Position::new_internal(s, pos).find_line_start() == ls(s.as_bytes(), pos));
+}
+#[kani::proof]
+#[kani::unwind(11)]
+fn find_line_end_chars3() {
+    let mut buf = [0u8; 9];
+    let s = sym_chars(&mut buf);
+    let pos: usize = kani::any();
+    kani::assume(pos <= s.len() && s.is_char_boundary(pos));
+    assert!(Position::new_internal(s, pos).find_line_end() == le(s.as_bytes(), pos));
+}
+#[kani::proof]
+#[kani::unwind(11)]
+fn line_col_chars3() {
+    let mut buf = [0u8; 9];
+    let s = sym_chars(&mut buf);
+    let pos: usize = kani::any();
+    kani::assume(pos <= s.len() && s.is_char_boundary(pos));
+    assert!(Position::new_internal(s, pos).line_col() == lc(s, pos));
+}
